@@ -139,6 +139,7 @@ pub const FILTER_COMBOS: &[&str] = &[
     "F/string/bfv-u16/s2/shards",
     "F/i64/bfv-u32/s1/noshards",
     "F/u128/box-u16/s2/noshards",
+    "F/u128/bfv-u8/s1/noshards",
 ];
 
 pub fn combo_word_bits(combo: &str) -> u32 {
@@ -852,6 +853,7 @@ filter_combo!(g9, u32, u8, boxed, s1, FuseLge3NoShards);
 filter_combo!(g10, string, u16, bfv, s2, FuseLge3Shards);
 filter_combo!(g11, i64, u32, bfv, s1, FuseLge3NoShards);
 filter_combo!(g12, u128, u16, boxed, s2, FuseLge3NoShards);
+filter_combo!(g13, u128, u8, bfv, s1, FuseLge3NoShards);
 
 fn dispatch(case: &BuilderCase, obs: &mut BuildObs) {
     match case.combo.as_str() {
@@ -900,6 +902,7 @@ fn dispatch(case: &BuilderCase, obs: &mut BuildObs) {
         "F/string/bfv-u16/s2/shards" => g10(case, obs),
         "F/i64/bfv-u32/s1/noshards" => g11(case, obs),
         "F/u128/box-u16/s2/noshards" => g12(case, obs),
+        "F/u128/bfv-u8/s1/noshards" => g13(case, obs),
         other => panic!("unknown combo {other}"),
     }
 }
